@@ -219,6 +219,19 @@ static void run(void) {
                 }
             if (VF_MINE(idx++)) case_ancestors(p);
         }
+    /* complete families eight levels deep (5 764 801 children of a hexagon, 4 804 001 of a pentagon): the step from one child to
+     * the next carries through up to eight digits; shallower families never carry through more than their depth */
+    {
+        int nd = VF_T(2, 6);
+        for (int i = 0; i < nd; i++) {
+            int res = (int)vf_below(&r, 8);
+            H3Index h = (i & 1) ? vf_make_cell(res, REF_PENT_BC[vf_below(&r, 12)], (int[15]){0}) : vf_rand_cell(&r, res);
+            if (VF_MINE(idx++)) {
+                case_children(h, res + 8);
+                vf_add("children.families_eight_levels_deep", 1);
+            }
+        }
+    }
     /* cells that left a pentagon's centre chain early and then followed centre children for many levels (a hexagon whose
      * trailing digits are all zero on a pentagon base cell): the digit pattern where "is this still a pentagon?" shortcuts go wrong */
     for (int k = 0; k < 12; k++)
